@@ -1981,6 +1981,10 @@ class _Linalg(object):
             memo_[key] = r
         return r
 
+    def solve(self, a, b):
+        """A x = b through the inverse of A (exact up to 3x3, otherwise the opaque inverse with its assumed contract)"""
+        return NP.matmul(self.inv(a), to_arr(b))
+
     def matrix_rank(self, a):
         raise Unsupported('np.linalg.matrix_rank')
 
